@@ -231,6 +231,29 @@ fn out_of_range_space() -> Vec<Canon> {
     out
 }
 
+/// dense numeric grid (numpool::grid) in each of the seven numeric positions of a fully populated and of a minimal shape
+fn grid_space() -> Vec<Canon> {
+    let mut out = vec![];
+    let base = || Canon { core: ["1".into(), "2".into(), "3".into()], epoch: Some("2".into()), pre: Some(("rc", "4".into())), post: Some("5".into()), dev: Some("6".into()), build: "a.1" };
+    for b in numpool::grid() {
+        for pos in 0..7 {
+            for minimal in [false, true] {
+                let mut c = base();
+                if minimal { c.epoch = None; c.pre = None; c.post = None; c.dev = None; c.build = ""; }
+                match pos {
+                    0..=2 => c.core[pos] = b.clone(),
+                    3 => c.epoch = Some(b.clone()),
+                    4 => c.pre = Some(("beta", b.clone())),
+                    5 => c.post = Some(b.clone()),
+                    _ => c.dev = Some(b.clone()),
+                }
+                out.push(c);
+            }
+        }
+    }
+    out
+}
+
 fn pep_space(quick: bool) -> Vec<String> {
     let epoch = ["", "0!", "1!", "4294967295!"];
     let release: Vec<&str> = if quick { vec!["1", "1.0", "1.2.3", "01.2"] } else { vec!["1", "0", "1.0", "0.1.0", "1.2.3", "01.2", "1.0.0", "4294967295.0.4294967295", "1.2.3.4", "1.0.0.0"] };
@@ -267,7 +290,7 @@ fn main() {
             Some("canon") => {
                 // rebuild the Canon from its SemVer text via the reference parser
                 let s = case["semver"].as_str().unwrap();
-                let all: Vec<Canon> = canon_space(false).into_iter().chain(out_of_range_space()).collect();
+                let all: Vec<Canon> = canon_space(false).into_iter().chain(out_of_range_space()).chain(grid_space()).collect();
                 match all.iter().find(|c| c.semver() == s) { Some(c) => judge_canon(&ctx, c, &mut st), None => machinery_error("canonical case not in the generated space") }
             }
             Some("pep") => judge_pep(&ctx, case["input"].as_str().unwrap(), &mut st),
@@ -281,6 +304,13 @@ fn main() {
     let s1 = cs.par_iter().map(|c| { let mut st = Stats::default(); judge_canon(&ctx, c, &mut st); st }).reduce(Stats::default, Stats::merge);
     let oor = out_of_range_space();
     let s2 = oor.par_iter().map(|c| { let mut st = Stats::default(); st.inc("out_of_range_cases"); judge_canon(&ctx, c, &mut st); st }).reduce(Stats::default, Stats::merge);
+    let gs = grid_space();
+    let s2g = gs.par_iter().map(|c| { let mut st = Stats::default(); st.inc("grid_cases"); judge_canon(&ctx, c, &mut st); st }).reduce(Stats::default, Stats::merge);
+    let s2 = s2.merge(s2g);
+    // the same grid through the PEP 440 spellings of every numeric slot (in range: full round-trip clauses; above u32: no silent change)
+    let pep_grid: Vec<String> = { let mut v = vec![]; for t in ["{N}!1.0", "{N}.0", "1.{N}", "1.0.{N}", "1.0a{N}", "1.0rc{N}.post2.dev3", "1.0.post{N}", "1.0-{N}", "1.0.dev{N}", "1.0+{N}", "1.0+a.{N}", "2!1.2.3b{N}.post4.dev5+l.6"] { for n in numpool::grid() { v.push(t.replace("{N}", &n)); } } v };
+    let s2h = pep_grid.par_iter().map(|p| { let mut st = Stats::default(); st.inc("pep_grid_cases"); judge_pep(&ctx, p, &mut st); judge_pep_out_of_range(&ctx, p, &mut st); st }).reduce(Stats::default, Stats::merge);
+    let s2 = s2.merge(s2h);
     let ps = pep_space(quick);
     let s3 = ps.par_iter().map(|p| { let mut st = Stats::default(); judge_pep(&ctx, p, &mut st); st }).reduce(Stats::default, Stats::merge);
     // PEP 440 spellings of every numeric slot x numerals at and above u32 / u64 (also zero-padded)
@@ -312,12 +342,12 @@ fn main() {
 
     let all = s1.merge(s2).merge(s3).merge(s4).merge(s5.clone());
     let mut cov = Coverage::default();
-    cov.states = (cs.len() + oor.len() + ps.len() + ts.len()) as u64;
+    cov.states = (cs.len() + oor.len() + ps.len() + ts.len() + gs.len() + pep_grid.len()) as u64;
     cov.transitions = all.get("renders");
     cov.evaluations = all.get("renders");
     cov.traces_validated = all.get("renders");
     cov.distinct_nontrivial = all.get("canon_cases") + all.get("pep_cases") + all.get("semver_fp_cases");
-    cov.rule = format!("canonical SemVer shapes: full product of core numbers x epoch x (label,number) x post x dev x build ({} versions) through semver->semver, semver->pep440, pep440->semver, pep440->pep440 against an independent formatter; {} out-of-range shapes (2^32, 2^64-1, 2^64, 23 digits in each numeric position) and 90 PEP 440 spellings of every numeric slot with numerals above u32 / u64 for the no-silent-change clause; {} PEP 440 spellings (product of epoch/release/pre/post/dev/local/prefix variants) for round-trip equality and fixed points; {} SemVer strings whose pre-release is every token sequence of length <= {} over [epoch alpha beta rc post dev pre 0 1 5 x 4294967296] for the fixed-point and no-silent-change clauses. every render goes through run_render (CLI entry). non-trivial = input versions judged", cs.len(), oor.len(), ps.len(), ts.len(), if quick { 4 } else { 5 });
+    cov.rule = format!("canonical SemVer shapes: full product of core numbers x epoch x (label,number) x post x dev x build ({} versions) through semver->semver, semver->pep440, pep440->semver, pep440->pep440 against an independent formatter; {} out-of-range shapes (2^32, 2^64-1, 2^64, 23 digits in each numeric position) and 90 PEP 440 spellings of every numeric slot with numerals above u32 / u64 for the no-silent-change clause; {} PEP 440 spellings (product of epoch/release/pre/post/dev/local/prefix variants) for round-trip equality and fixed points; {} SemVer strings whose pre-release is every token sequence of length <= {} over [epoch alpha beta rc post dev pre 0 1 5 x 4294967296] for the fixed-point and no-silent-change clauses. every render goes through run_render (CLI entry). non-trivial = input versions judged. dense numeric grid (0..=300 and the neighbourhoods of 2^8..2^64, 10^2..10^20: {} values) in each of the 7 numeric positions of a full and a minimal canonical shape ({} versions) and in 12 PEP 440 spellings ({} strings)", cs.len(), oor.len(), ps.len(), ts.len(), if quick { 4 } else { 5 }, numpool::grid().len(), gs.len(), pep_grid.len());
     cov.exhaustive = true;
     cov.samples = vec![json!(cs[cs.len() / 2].semver()), json!(oor[3].semver()), json!(ps[ps.len() / 3]), json!(ts[ts.len() - 7])];
     cov.set("clause_counts", all.to_json());
